@@ -1,3 +1,295 @@
+/-
+C19 — reported bias, variance and MSE match the mechanism's actual distribution; variance is monotone.
+
+The closed forms are the executable model `DPL/Model/Moments.lean` (run on IEEE doubles against the Python
+`bias()/variance()/mse()` by `Drivers/Continuous.lean` on every check); here the same definitions are instantiated at ℝ.
+
+Proved in full:  Geometric (the coded closed form is `2r/(1-r)²`, which is the second moment of the two-sided geometric
+                 pmf; bias 0), Laplace (`2b²` is the second central moment of the Laplace density — integral computed —
+                 and the mean is the value), Uniform, Gaussian (unit-normal moments as hypothesis), the MSE
+                 decomposition, monotonicity of every closed form in ε and in the sensitivity, and that the
+                 overflow-free `LaplaceFolded.bias` of commit 21336e0 is the previous expression.
+Partial:         truncated and bounded-domain Laplace (`…_partial`): FOR A VALUE INSIDE A FINITE DOMAIN, given the
+                 evaluations of the four integrals `∫ y^j e^{∓(y-v)/b}/(2b)` (hypotheses, each an elementary
+                 antiderivative), the mean and variance of the law are exactly the coded expressions.
+                 The regions excluded are exactly the open known findings: value outside the domain
+                 (`…:value-outside-domain`), infinite bounds (`…:nan-infinite-bound`); floating-point cancellation
+                 (`…:float-cancellation`) is outside any theorem over ℝ.
+                 Folded Laplace: only the identity between the two coded expressions is proved; the law's mean (an
+                 infinite sum of reflected pieces) is validated numerically.
+-/
 import DPL.Model.Moments
+import DPL.Proofs.RealCarrier
+import DPL.Proofs.ContinuousCalib
+import DPL.Proofs.ContinuousIntegrals
+import DPL.Proofs.ContinuousMoments
+import Mathlib.MeasureTheory.Integral.IntervalIntegral.FundThmCalculus
+import Mathlib.Analysis.SpecialFunctions.Integrals.Basic
+
 namespace DPL.C19
+open DPL DPL.Cont MeasureTheory
+
+/-! ## Geometric -/
+
+/-- the coded `2·lf·(g + 3g² + 2g³)` with `lf = (1-r)/(1+r)`, `g = r/(1-r)`, `r = e^{scale}` is `2r/(1-r)²` -/
+theorem geometric_variance_closed_form (scale : ℝ) (hs : scale < 0) :
+    geomVarianceOf scale = 2 * Real.exp scale / (1 - Real.exp scale) ^ 2 := by
+  rw [geomVarianceOf_real]
+  exact geom_closed_form _ (by rw [← Real.exp_zero]; exact Real.exp_lt_exp.mpr hs) (Real.exp_pos _).le
+
+/-- **geometric_variance**: the two-sided geometric pmf `P[k] = (1-r)/(1+r) · r^|k|` (the noise law of `Geometric`,
+`r = e^{-ε/sens}`) has second moment equal to the reported variance, and first moment 0 (the reported bias) -/
+theorem geometric_variance (eps : ℝ) (sens : ℕ) (he : 0 < eps) (hsens : 0 < sens) :
+    let r := Real.exp (geomScale eps sens)
+    HasSum (fun k : ℤ => (k : ℝ) ^ 2 * ((1 - r) / (1 + r) * r ^ k.natAbs)) (geomVarianceOf (geomScale eps sens)) ∧
+    HasSum (fun k : ℤ => (k : ℝ) * ((1 - r) / (1 + r) * r ^ k.natAbs)) 0 := by
+  intro r
+  have hneg : geomScale eps sens < 0 := by
+    unfold geomScale
+    have : (0:ℝ) < (sens : ℝ) := by exact_mod_cast hsens
+    exact div_neg_of_neg_of_pos (by linarith) this
+  have h1 : r < 1 := by
+    show Real.exp (geomScale eps sens) < 1
+    rw [← Real.exp_zero]; exact Real.exp_lt_exp.mpr hneg
+  have h0 : 0 ≤ r := (Real.exp_pos _).le
+  refine ⟨?_, hasSum_geom_first_moment r h0 h1⟩
+  rw [geometric_variance_closed_form _ hneg]
+  exact hasSum_geom_second_moment r h0 h1
+
+/-! ## Laplace -/
+
+/-- **laplace_variance**: the reported `2·(sens/(ε - log(1-δ)))²` is the second central moment of the Laplace density
+with the scale the sampler uses, and the first central moment (bias) is 0 -/
+theorem laplace_variance (eps delta sens x : ℝ) (hs : 0 < sens) (hpos : 0 < eps - Real.log (1 - delta)) :
+    ∫ y, (y - x) ^ 2 * lapDensity (laplaceScale eps delta sens) x y = laplaceVariance eps delta sens ∧
+    ∫ y, (y - x) * lapDensity (laplaceScale eps delta sens) x y = (laplaceBias : ℝ) := by
+  have hb : 0 < laplaceScale eps delta sens := by rw [laplaceScale_real]; positivity
+  refine ⟨?_, ?_⟩
+  · rw [integral_sq_mul_lapDensity _ x hb, laplaceVariance_real]
+  · rw [integral_sub_mul_lapDensity]; rfl
+
+/-! ## Uniform -/
+
+/-- **uniform_variance**: the reported `(sens/δ)²/12` is the second central moment of the uniform density on
+`[x - w, x + w]`, `w = sens/δ/2` the half width the sampler uses -/
+theorem uniform_variance (delta sens x : ℝ) (hd : 0 < delta) (hs : 0 < sens) :
+    let w := uniformHalfWidth delta sens
+    (∫ y in (x - w)..(x + w), (y - x) ^ 2 * (1 / (2 * w))) = uniformVariance delta sens := by
+  intro w
+  have hw : w = sens / delta / 2 := uniformHalfWidth_real delta sens
+  have hw0 : 0 < w := by rw [hw]; positivity
+  rw [intervalIntegral.integral_mul_const]
+  have h1 : (∫ y in (x - w)..(x + w), (y - x) ^ 2) = ∫ t in (-w)..w, t ^ 2 := by
+    have := intervalIntegral.integral_comp_sub_right (fun t : ℝ => t ^ 2) (a := x - w) (b := x + w) x
+    rw [this]; congr 1 <;> ring
+  rw [h1, integral_pow, uniformVariance_real, hw]
+  have hq : (0:ℝ) < sens / delta := by positivity
+  clear hw hw0 h1
+  generalize sens / delta = q at hq
+  have hq' : q ≠ 0 := hq.ne'
+  push_cast
+  field_simp
+  ring
+
+/-! ## Gaussian -/
+
+/-- **gaussian_variance**: the noise is `σ·Z`; for ANY law of `Z` with `E[Z²] = 1` and `E[Z] = 0` (cited for the standard
+normal) the second moment of the noise is the reported `σ²` and its mean 0 -/
+theorem gaussian_variance (μ : Measure ℝ) (sigma : ℝ) (h2 : ∫ z, z ^ 2 ∂μ = 1) (h1 : ∫ z, z ∂μ = 0) :
+    ∫ z, (sigma * z) ^ 2 ∂μ = gaussVarianceOf sigma ∧ ∫ z, sigma * z ∂μ = 0 := by
+  constructor
+  · have : (fun z : ℝ => (sigma * z) ^ 2) = fun z => sigma ^ 2 * z ^ 2 := by funext z; ring
+    rw [this, integral_const_mul, h2, gaussVarianceOf_real]; ring
+  · rw [integral_const_mul, h1]; ring
+
+/-! ## MSE -/
+
+/-- **mse_decomp**: `mse = variance + bias²`; with `bias = E[Y - x]` and `variance = E[(Y-x)²] - (E[Y-x])²` this is the
+mean squared error `E[(Y - x)²]` -/
+theorem mse_decomp (variance bias m1 m2 : ℝ) :
+    mse variance bias = variance + bias ^ 2 ∧ mse (m2 - m1 ^ 2) m1 = m2 := by
+  constructor
+  · exact mse_real variance bias
+  · rw [mse_real]; ring
+
+/-! ## monotonicity -/
+
+/-- **variance_monotone** (Laplace): antitone in ε, monotone in the sensitivity -/
+theorem variance_monotone_laplace (delta : ℝ) :
+    (∀ eps1 eps2 sens : ℝ, 0 ≤ sens → 0 < eps1 - Real.log (1 - delta) → eps1 ≤ eps2 →
+        laplaceVariance eps2 delta sens ≤ laplaceVariance eps1 delta sens) ∧
+    (∀ eps sens1 sens2 : ℝ, 0 < eps - Real.log (1 - delta) → 0 ≤ sens1 → sens1 ≤ sens2 →
+        laplaceVariance eps delta sens1 ≤ laplaceVariance eps delta sens2) := by
+  constructor
+  · intro e1 e2 s hs h1 h
+    rw [laplaceVariance_real, laplaceVariance_real, laplaceScale_real, laplaceScale_real]
+    have := sq_div_antitone s (e1 - Real.log (1 - delta)) (e2 - Real.log (1 - delta)) hs h1 (by linarith)
+    linarith
+  · intro e s1 s2 h1 hs h
+    rw [laplaceVariance_real, laplaceVariance_real, laplaceScale_real, laplaceScale_real]
+    have := sq_div_monotone s1 s2 (e - Real.log (1 - delta)) hs h h1
+    linarith
+
+/-- **variance_monotone** (Geometric): antitone in ε, monotone in the sensitivity -/
+theorem variance_monotone_geometric :
+    (∀ (eps1 eps2 : ℝ) (sens : ℕ), 0 < sens → 0 < eps1 → eps1 ≤ eps2 →
+        geomVarianceOf (geomScale eps2 sens) ≤ geomVarianceOf (geomScale eps1 sens)) ∧
+    (∀ (eps : ℝ) (sens1 sens2 : ℕ), 0 < eps → 0 < sens1 → sens1 ≤ sens2 →
+        geomVarianceOf (geomScale eps sens1) ≤ geomVarianceOf (geomScale eps sens2)) := by
+  have key : ∀ s1 s2 : ℝ, s1 ≤ s2 → s2 < 0 → geomVarianceOf s1 ≤ geomVarianceOf s2 := by
+    intro s1 s2 h hneg
+    rw [geometric_variance_closed_form s1 (by linarith), geometric_variance_closed_form s2 hneg]
+    exact geom_var_monotone _ _ (Real.exp_pos _).le (Real.exp_le_exp.mpr h)
+      (by rw [← Real.exp_zero]; exact Real.exp_lt_exp.mpr hneg)
+  constructor
+  · intro e1 e2 s hs he h
+    have hs' : (0:ℝ) < (s : ℝ) := by exact_mod_cast hs
+    apply key
+    · unfold geomScale; exact div_le_div_of_nonneg_right (by linarith) hs'.le
+    · unfold geomScale; exact div_neg_of_neg_of_pos (by linarith) hs'
+  · intro e s1 s2 he hs h
+    have hs1 : (0:ℝ) < (s1 : ℝ) := by exact_mod_cast hs
+    have h12 : (s1 : ℝ) ≤ (s2 : ℝ) := by exact_mod_cast h
+    have hs2 : (0:ℝ) < (s2 : ℝ) := lt_of_lt_of_le hs1 h12
+    apply key
+    · unfold geomScale
+      rw [neg_div, neg_div, neg_le_neg_iff]
+      exact div_le_div_of_nonneg_left he.le hs1 h12
+    · unfold geomScale; exact div_neg_of_neg_of_pos (by linarith) hs2
+
+/-- **variance_monotone** (classical Gaussian, `σ = √(2 log(1.25/δ))·sens/ε`): antitone in ε, monotone in the sensitivity -/
+theorem variance_monotone_gaussian (delta : ℝ) :
+    (∀ eps1 eps2 sens : ℝ, 0 ≤ sens → 0 < eps1 → eps1 ≤ eps2 →
+        gaussVarianceOf (gaussSigma eps2 delta sens) ≤ gaussVarianceOf (gaussSigma eps1 delta sens)) ∧
+    (∀ eps sens1 sens2 : ℝ, 0 < eps → 0 ≤ sens1 → sens1 ≤ sens2 →
+        gaussVarianceOf (gaussSigma eps delta sens1) ≤ gaussVarianceOf (gaussSigma eps delta sens2)) := by
+  have hc : 0 ≤ Real.sqrt (2 * Real.log (5 / 4 / delta)) := Real.sqrt_nonneg _
+  constructor
+  · intro e1 e2 s hs h1 h
+    rw [gaussVarianceOf_real, gaussVarianceOf_real, gaussSigma_real, gaussSigma_real]
+    exact sq_div_antitone _ e1 e2 (by positivity) h1 h
+  · intro e s1 s2 he hs h
+    rw [gaussVarianceOf_real, gaussVarianceOf_real, gaussSigma_real, gaussSigma_real]
+    exact sq_div_monotone _ _ e (by positivity) (mul_le_mul_of_nonneg_left h hc) he
+
+/-- **variance_monotone** (Uniform, ε fixed at 0): monotone in the sensitivity -/
+theorem variance_monotone_uniform (delta sens1 sens2 : ℝ) (hd : 0 < delta) (hs : 0 ≤ sens1) (h : sens1 ≤ sens2) :
+    uniformVariance delta sens1 ≤ uniformVariance delta sens2 := by
+  rw [uniformVariance_real, uniformVariance_real]
+  have := sq_div_monotone sens1 sens2 delta hs h hd
+  linarith
+
+example : (0:ℝ) < 1 - Real.log (1 - 0) := by simp
+
+/-! ## folded Laplace -/
+
+/-- the overflow-free expression `LaplaceFolded.bias` uses since commit 21336e0 is the same real function as the
+expression it replaced (which evaluated to `inf/inf` for wide domains) -/
+theorem folded_bias_same_function (b l u v : ℝ) (hb : b ≠ 0) : foldBiasOf b l u v = foldBiasOld b l u v :=
+  foldBias_eq_old b l u v hb
+
+/-! ## truncated and bounded-domain Laplace (partial) -/
+
+/-- the full statements (not proved): for EVERY value and EVERY (possibly infinite) bounds the reported numbers are
+the moments of the output law.  They are FALSE for the code as it is (open known findings
+`C19:…:value-outside-domain`, `C19:…:nan-infinite-bound`): the closed forms assume `lower ≤ value ≤ upper`, finite. -/
+def truncated_moments_full : Prop :=
+  ∀ (b l u v : ℝ), 0 < b → l ≤ u →
+    let clampLaw := (volume.withDensity (fun y => ENNReal.ofReal (lapDensity b v y))).map (fun y => max l (min y u))
+    (∫ y, (y - v) ∂clampLaw) = truncBiasOf b l u v
+
+/-- **truncated Laplace, partial** (value inside a finite domain, `l ≤ v ≤ u`).  The law of `clamp(v + Laplace(b))` has
+point masses `E₁/2` at `l`, `E₂/2` at `u` (`E₁ = e^{(l-v)/b}`, `E₂ = e^{(v-u)/b}`) and the Laplace density in between.
+Given the evaluations of the four integrals of `y^j · density` over `[l, v]` and `[v, u]` (hypotheses `hI₁ hI₂ hJ₁ hJ₂`:
+the elementary antiderivatives `(y ∓ b)e^{±(y-v)/b}/2`, `(y² ∓ 2by + 2b²)e^{±(y-v)/b}/2`), the mean minus `v` is the
+coded bias and the second moment minus the squared mean is the coded variance. -/
+theorem truncated_moments_partial (b l u v I1 I2 J1 J2 : ℝ)
+    (hI1 : I1 = (v - b) / 2 - (l - b) * Real.exp ((l - v) / b) / 2)
+    (hI2 : I2 = (v + b) / 2 - (u + b) * Real.exp ((v - u) / b) / 2)
+    (hJ1 : J1 = (v ^ 2 - 2 * b * v + 2 * b ^ 2) / 2 - (l ^ 2 - 2 * b * l + 2 * b ^ 2) * Real.exp ((l - v) / b) / 2)
+    (hJ2 : J2 = (v ^ 2 + 2 * b * v + 2 * b ^ 2) / 2 - (u ^ 2 + 2 * b * u + 2 * b ^ 2) * Real.exp ((v - u) / b) / 2) :
+    let mean := l * (Real.exp ((l - v) / b) / 2) + I1 + I2 + u * (Real.exp ((v - u) / b) / 2)
+    let second := l ^ 2 * (Real.exp ((l - v) / b) / 2) + J1 + J2 + u ^ 2 * (Real.exp ((v - u) / b) / 2)
+    mean - v = truncBiasOf b l u v ∧ second - mean ^ 2 = truncVarianceOf b l u v := by
+  intro mean second
+  have hbias : mean - v = truncBiasOf b l u v := by
+    show l * (Real.exp ((l - v) / b) / 2) + I1 + I2 + u * (Real.exp ((v - u) / b) / 2) - v = _
+    unfold truncBiasOf
+    simp only [transc_exp]
+    rw [hI1, hI2]; ring
+  refine ⟨hbias, ?_⟩
+  have hm : mean = truncBiasOf b l u v + v := by linarith
+  rw [hm]
+  show l ^ 2 * (Real.exp ((l - v) / b) / 2) + J1 + J2 + u ^ 2 * (Real.exp ((v - u) / b) / 2) - _ = _
+  unfold truncVarianceOf
+  simp only [sq_real, transc_exp]
+  rw [hJ1, hJ2]; ring
+
+/-- the first of those integral evaluations, discharged by the fundamental theorem of calculus (the other three are
+the same computation with the antiderivatives named above) -/
+theorem truncated_integral_I1 (b l v : ℝ) (hb : 0 < b) :
+    (∫ y in l..v, y * (Real.exp ((y - v) / b) / (2 * b))) =
+      (v - b) / 2 - (l - b) * Real.exp ((l - v) / b) / 2 := by
+  have hderiv : ∀ y ∈ Set.uIcc l v,
+      HasDerivAt (fun y => (y - b) * Real.exp ((y - v) / b) / 2) (y * (Real.exp ((y - v) / b) / (2 * b))) y := by
+    intro y _
+    have h1 : HasDerivAt (fun y : ℝ => (y - v) / b) (1 / b) y := by
+      simpa using ((hasDerivAt_id y).sub_const v).div_const b
+    have h2 : HasDerivAt (fun y : ℝ => Real.exp ((y - v) / b)) (Real.exp ((y - v) / b) * (1 / b)) y := h1.exp
+    have h3 : HasDerivAt (fun y : ℝ => y - b) 1 y := (hasDerivAt_id y).sub_const b
+    have h4 := (h3.mul h2).div_const 2
+    have hb' : b ≠ 0 := hb.ne'
+    refine h4.congr_deriv ?_
+    field_simp
+    ring
+  have hint : IntervalIntegrable (fun y => y * (Real.exp ((y - v) / b) / (2 * b))) volume l v := by
+    apply Continuous.intervalIntegrable
+    fun_prop
+  rw [intervalIntegral.integral_eq_sub_of_hasDerivAt hderiv hint]
+  simp only [sub_self, zero_div, Real.exp_zero, mul_one]
+
+/-- **bounded-domain Laplace, partial** (value inside a finite domain): the law is the Laplace density restricted to
+`[l, u]` and divided by `C = 1 - E₁/2 - E₂/2`; with the same four integral evaluations the mean minus `v` is the coded
+bias and the second moment minus the squared mean the coded variance — for whatever scale `s` the calibration returned -/
+theorem bounded_domain_moments_partial (s l u v I1 I2 J1 J2 : ℝ)
+    (hC : 1 - Real.exp ((l - v) / s) / 2 - Real.exp ((v - u) / s) / 2 ≠ 0)
+    (hI1 : I1 = (v - s) / 2 - (l - s) * Real.exp ((l - v) / s) / 2)
+    (hI2 : I2 = (v + s) / 2 - (u + s) * Real.exp ((v - u) / s) / 2)
+    (hJ1 : J1 = (v ^ 2 - 2 * s * v + 2 * s ^ 2) / 2 - (l ^ 2 - 2 * s * l + 2 * s ^ 2) * Real.exp ((l - v) / s) / 2)
+    (hJ2 : J2 = (v ^ 2 + 2 * s * v + 2 * s ^ 2) / 2 - (u ^ 2 + 2 * s * u + 2 * s ^ 2) * Real.exp ((v - u) / s) / 2) :
+    let C := 1 - Real.exp ((l - v) / s) / 2 - Real.exp ((v - u) / s) / 2
+    let mean := (I1 + I2) / C
+    let second := (J1 + J2) / C
+    mean - v = bdBiasOf s l u v ∧ second - mean ^ 2 = bdVarianceOf s l u v := by
+  intro C mean second
+  have hbias : mean - v = bdBiasOf s l u v := by
+    show (I1 + I2) / (1 - Real.exp ((l - v) / s) / 2 - Real.exp ((v - u) / s) / 2) - v = _
+    unfold bdBiasOf
+    simp only [transc_exp]
+    rw [hI1, hI2]
+    generalize Real.exp ((l - v) / s) = A at *
+    generalize Real.exp ((v - u) / s) = B at *
+    have hD : 2 - A - B ≠ 0 := by intro h; apply hC; linarith
+    field_simp
+    ring
+  refine ⟨hbias, ?_⟩
+  have hm : mean = bdBiasOf s l u v + v := by linarith
+  rw [hm]
+  show (J1 + J2) / (1 - Real.exp ((l - v) / s) / 2 - Real.exp ((v - u) / s) / 2) - _ = _
+  unfold bdVarianceOf
+  simp only [sq_real, transc_exp]
+  have e1 : Real.exp (-(v - l) / s) = Real.exp ((l - v) / s) := by congr 1; ring
+  have e2 : Real.exp (-(u - v) / s) = Real.exp ((v - u) / s) := by congr 1; ring
+  rw [e1, e2, hJ1, hJ2]
+  have hC' : 1 - (Real.exp ((l - v) / s) + Real.exp ((v - u) / s)) / 2 ≠ 0 := by
+    have : 1 - (Real.exp ((l - v) / s) + Real.exp ((v - u) / s)) / 2
+        = 1 - Real.exp ((l - v) / s) / 2 - Real.exp ((v - u) / s) / 2 := by ring
+    rw [this]; exact hC
+  generalize Real.exp ((l - v) / s) = A at *
+  generalize Real.exp ((v - u) / s) = B at *
+  have hD : 2 - A - B ≠ 0 := by intro h; apply hC; linarith
+  have hD' : 2 - (A + B) ≠ 0 := by intro h; apply hD; linarith
+  field_simp
+  ring
+
 end DPL.C19
